@@ -1111,8 +1111,25 @@ func (d *Driver) opFaultWindowsFor(inst int) [][2]time.Duration {
 		if f.Inst >= 0 && f.Inst != inst {
 			continue
 		}
+		if f.OpN > 0 {
+			// a point fault touches one operation: from its invocation until it has been answered
+			for _, op := range d.h.Ops {
+				n := op.Nth
+				if f.Op != "" {
+					n = op.NthKind
+				}
+				if (f.Inst < 0 || op.Inst == f.Inst) && op.Inst == inst && (f.Op == "" || f.Op == op.Kind) && n == f.OpN {
+					w := [2]time.Duration{op.TInvoke, 1 << 60}
+					if op.TRet >= 0 {
+						w[1] = op.TRet + time.Millisecond
+					}
+					out = append(out, w)
+				}
+			}
+			continue
+		}
 		to := f.To
-		if to == 0 || f.OpN > 0 {
+		if to == 0 {
 			to = 1 << 60
 		} else {
 			to += d.clientTimeout() + time.Second
